@@ -25,6 +25,9 @@ fn doc_alphabet() -> Vec<DEv> {
         DEv::open_slash("path"),
         DEv::open_slash("a"),
         DEv::open_a("x-long-custom-element", " k=\"v w\"", &[("k", "v w")]),
+        // a legacy HTML attribute name (its values compare case-insensitively on HTML elements,
+        // case-sensitively on foreign elements)
+        DEv::open_a("a", " type=TEXT", &[("type", "TEXT")]),
         DEv::close("a"),
         DEv::close("q"),
         DEv::close("svg"),
@@ -68,6 +71,7 @@ fn simples_full() -> Vec<Simple> {
         attr("k", AttrOp::Eq, "v", Case::Default), attr("k", AttrOp::Eq, "V", Case::Default), attr("k", AttrOp::Eq, "V", Case::I),
         attr("k", AttrOp::Eq, "v", Case::S), attr("K", AttrOp::Eq, "V", Case::S), attr("k", AttrOp::Eq, "w", Case::Default),
         attr("k", AttrOp::Eq, "", Case::Default),
+        attr("type", AttrOp::Eq, "text", Case::Default), attr("type", AttrOp::Prefix, "te", Case::Default), attr("type", AttrOp::Eq, "text", Case::S),
         attr("class", AttrOp::Includes, "c", Case::Default), attr("class", AttrOp::Includes, "D", Case::I), attr("k", AttrOp::Includes, "w", Case::Default),
         attr("k", AttrOp::Dash, "v", Case::Default), attr("k", AttrOp::Dash, "V", Case::I),
         attr("k", AttrOp::Prefix, "v", Case::Default), attr("class", AttrOp::Prefix, "c ", Case::Default),
@@ -307,6 +311,22 @@ pub fn run_check(ctx: &Ctx) -> i32 {
     // (2) 2-compounds
     let c2 = compounds2(&simples_core());
     slice(ctx, &format!("(2) {} two-simple compounds in groups of 25 x D<={}", c2.len(), if quick { 3 } else { 4 }), &full, if quick { 3 } else { 4 }, &jobs_from(c2.clone(), 25, true), true);
+    // (2b) compounds that repeat a simple selector (.c.c, [k][k], :not(a):not(a)) registered BEFORE
+    // compounds of the same length that contain their members (.c.d ...): predicates must not merge
+    {
+        let cls = |x: &str| Simple::Class(x.into());
+        let rep: Vec<Vec<Simple>> = vec![
+            vec![cls("c"), cls("c")], vec![cls("c"), cls("d")], vec![cls("d"), cls("c")], vec![cls("d"), cls("d")],
+            vec![Simple::AttrExists("k".into()), Simple::AttrExists("k".into())], vec![Simple::AttrExists("k".into()), Simple::AttrExists("id".into())],
+            vec![not1(ty("a")), not1(ty("a"))], vec![not1(ty("a")), not1(cls("c"))],
+            vec![Simple::Id("i".into()), Simple::Id("i".into())], vec![Simple::Id("i".into()), cls("c")],
+        ];
+        let sels: Vec<SelList> = rep.into_iter().map(|v| SelList::one(Complex::single(Compound(v)))).collect();
+        let mut rev = sels.clone();
+        rev.reverse();
+        let jobs: Vec<Job> = [sels, rev].into_iter().map(|g| Job { strs: g.iter().map(|s| s.render()).collect(), sels: g }).collect();
+        slice(ctx, "(2b) 10 compounds with repeated / shared simple selectors in one rewriter, both registration orders x D<=3", &full, 3, &jobs, false);
+    }
     // (3) complex selectors of 2 compounds
     let ch2 = chains(&simples_core(), 2);
     slice(ctx, &format!("(3) {} two-compound chains (child/descendant) in groups of 40 x Dred<={}", ch2.len(), 4), &red, 4, &jobs_from(ch2.clone(), 40, true), quick == false);
